@@ -74,20 +74,29 @@ TWINS = [
 
 
 def run(ctx):
-    prog = ctx.prog
+    prog = ctx.raw_prog()     # the rules anchor on the boundary names
     fi = prog.func("fits_tools.load_image_band")
     mod = prog.modules[fi.module]
     band = fi.params[1]
     # ---- locate boundary definitions: names used as row slice bounds -----
     bounds = None
+    slice_objs = {}
+    for s in walk_no_nested(fi.node):
+        if isinstance(s, ast.Assign) and isinstance(s.value, ast.Call) and \
+                norm(s.value.func) == "slice" and len(s.value.args) == 2 and \
+                all(isinstance(a, ast.Name) for a in s.value.args) and \
+                isinstance(s.targets[0], ast.Name):
+            slice_objs[s.targets[0].id] = (s.value.args[0].id,
+                                           s.value.args[1].id)
     for s in walk_no_nested(fi.node):
         if isinstance(s, ast.Subscript) and isinstance(s.slice, ast.Tuple) \
-                and isinstance(s.slice.elts[-2] if len(s.slice.elts) >= 2
-                               else None, ast.Slice):
+                and len(s.slice.elts) >= 2:
             sl = s.slice.elts[-2]
-            if isinstance(sl.lower, ast.Name) and isinstance(sl.upper,
-                                                             ast.Name):
+            if isinstance(sl, ast.Slice) and isinstance(sl.lower, ast.Name) \
+                    and isinstance(sl.upper, ast.Name):
                 bounds = (sl.lower.id, sl.upper.id)
+            elif isinstance(sl, ast.Name) and sl.id in slice_objs:
+                bounds = slice_objs[sl.id]
     if bounds is None:
         raise AnalysisError("C20: row slice [lo:hi, ...] not found")
     lo, hi = bounds
@@ -174,18 +183,38 @@ def run(ctx):
              "CRPIX2 header updates")
     g = CFG(fi.node)
     upd = {"NAXIS2": [], "CRPIX2": []}
+    upd_values = {"NAXIS2": [], "CRPIX2": []}   # (stmt, names used)
+
+    def key_stores(fnode):
+        out = []
+        for s_ in walk_no_nested(fnode):
+            tg_ = s_.targets[0] if isinstance(s_, ast.Assign) else (
+                s_.target if isinstance(s_, ast.AugAssign) else None)
+            if isinstance(tg_, ast.Subscript) and \
+                    isinstance(tg_.slice, ast.Constant) and \
+                    tg_.slice.value in upd:
+                out.append((s_, tg_))
+        return out
     for nn, s in g.stmt.items():
         if g.kind[nn] != "stmt":
             continue
-        tg = None
-        if isinstance(s, ast.Assign):
-            tg = s.targets[0]
-        elif isinstance(s, ast.AugAssign):
-            tg = s.target
-        if isinstance(tg, ast.Subscript) and \
-                isinstance(tg.slice, ast.Constant) and \
-                tg.slice.value in upd:
+        for st_, tg in key_stores(ast.Module([s], [])) if isinstance(
+                s, (ast.Assign, ast.AugAssign)) else []:
             upd[tg.slice.value].append(nn)
+            upd_values[tg.slice.value].append((s, names_in(s.value)))
+        # helper(header, lo, hi) that stores the keys on its parameter
+        if isinstance(s, ast.Expr) and isinstance(s.value, ast.Call):
+            q = prog.resolve_name(mod, norm(s.value.func))
+            h = prog.functions.get(q)
+            if h is not None and not s.value.keywords and \
+                    len(s.value.args) <= len(h.params):
+                bind = dict(zip(h.params, [norm(a) for a in s.value.args]))
+                for st_, tg in key_stores(h.node):
+                    if bind.get(norm(tg.value)) == "header":
+                        upd[tg.slice.value].append(nn)
+                        upd_values[tg.slice.value].append(
+                            (s, {bind.get(x, x) for x in
+                                 names_in(st_.value)}))
     rets = [nn for nn, s in g.stmt.items() if g.kind[nn] == "return"]
     if not rets:
         raise AnalysisError("C20-R2: no return statement")
@@ -203,6 +232,8 @@ def run(ctx):
              "(tabulated over order types)")
     guards = []
     for s in fi.node.body:
+        if isinstance(s, ast.Expr) and isinstance(s.value, ast.Constant):
+            continue                         # docstring
         if isinstance(s, ast.If) and band in names_in(s.test):
             cur = s
             while True:
@@ -211,7 +242,12 @@ def run(ctx):
                 if len(cur.orelse) == 1 and isinstance(cur.orelse[0], ast.If):
                     cur = cur.orelse[0]
                 else:
+                    if cur.orelse:
+                        raise AnalysisError("C20-R3: guard chain ends in an "
+                                            "else block")
                     break
+            continue      # further independent guards may follow
+        if guards:
             break
     if not guards:
         raise AnalysisError("C20-R3: validation guards not found")
@@ -261,15 +297,13 @@ def run(ctx):
     # ---------------------------------------------------------------- R4
     ctx.rule("C20-R4", "data and header use the same row bounds; every "
              "returned data array is sliced [lo:hi]")
-    for key, nodes in upd.items():
-        for nn in nodes:
-            s = g.stmt[nn]
-            used = names_in(s.value)
+    for key, vals in upd_values.items():
+        for s, used in vals:
             want = {lo, hi} if key == "NAXIS2" else {lo}
-            ctx.check("C20-R4", fi, "header update " + norm(s),
-                      used == want,
-                      "%s must be derived from %s" % (key, sorted(want)),
-                      node=s)
+            ctx.check("C20-R4", fi, "header update of %s in %s" %
+                      (key, norm(s, 60)), used == want,
+                      "%s must be derived from %s; uses %s" %
+                      (key, sorted(want), sorted(used)), node=s)
     for rn in rets:
         s = g.stmt[rn]
         if not isinstance(s.value, ast.Tuple) or len(s.value.elts) != 2:
@@ -289,6 +323,17 @@ def _sliced_by(fnode, e, lo, hi, depth=0):
                 x.upper is not None and norm(x.lower) == lo and \
                 norm(x.upper) == hi:
             return True
+        if isinstance(x, ast.Subscript):
+            # a named slice object  rows = slice(lo, hi)
+            for el in (x.slice.elts if isinstance(x.slice, ast.Tuple)
+                       else [x.slice]):
+                if isinstance(el, ast.Name):
+                    for d in walk_no_nested(fnode):
+                        if isinstance(d, ast.Assign) and \
+                                norm(d.targets[0]) == el.id and \
+                                norm(d.value).replace(" ", "") == \
+                                "slice(%s,%s)" % (lo, hi):
+                            return True
     if isinstance(e, ast.Name):
         defs = [s for s in walk_no_nested(fnode) if isinstance(s, ast.Assign)
                 and any(norm(t) == e.id for t in s.targets)]
